@@ -395,6 +395,7 @@ def lex(text):
     return list(lexer.tokenize(text))
 
 
+_WS_RUN = re.compile(r'\s+')
 _TRAIL = re.compile(r'[ \t]+(?=\r\n|\r|\n|$)')
 
 
@@ -413,5 +414,9 @@ def sig(text):
             continue
         if tt in T.Comment:
             v = norm_comment(v)
+        elif (tt in T.Keyword or tt in T.Operator or tt is T.Name.Builtin) \
+                and not v.isalnum():
+            # multi-word keywords: their inner whitespace is whitespace
+            v = _WS_RUN.sub(' ', v)
         out.append((tt, v))
     return out
